@@ -353,6 +353,7 @@ def run(ctx):
                "code and wakes waiters, in that order")
 
     # ---------------------------------------------------------------- R6 reset completeness
+    R6C_CONDITIONAL = set()
     CONFIG = re.compile(r"^(set_.*|declare_.*|source|target|condition|data_num|vertex_num|producer|add_successor|executer|"
                         r"trivial|on_reset|set_default_on_reset|check_declare_type)$")
     for rec in ("GraphVertex", "GraphData", "GraphDependency"):
@@ -383,6 +384,33 @@ def run(ctx):
             ctx.ob("C05.R6", "%s::%s" % (rec, field), field in reset_writes, fn.loc,
                    "%s::%s is written during a run (by %s) but not by reset(): the next run of the same graph instance "
                    "starts from stale state" % (rec, field, fn.name), site="%s::%s@reset" % (rec, field))
+        # R6c ... and on every path through reset(), not only on some
+        for rfn in [f for f in fns_of(fb, rec) if f.name == "reset" and f.has_cfg()]:
+            ig = IG(rfn, inline=lambda a, b, c: False)
+            live = ig.live_nodes()
+            wn = {}
+            for n in ig.ev_nodes():
+                if n.id not in live:
+                    continue
+                ev = n.ev
+                ts = []
+                if ev["e"] == "asg":
+                    ts.append(strip_cast(ev["lhs"]))
+                elif ev["e"] == "call":
+                    if ev.get("name") in ("store", "exchange", "fetch_add", "fetch_sub", "compare_exchange_strong", "compare_exchange_weak",
+                                          "operator=", "clear", "emplace_back"):
+                        ts.append(strip_cast(ev.get("this")))
+                    ts += [strip_cast(a) for a in ev.get("args", [])]
+                for t in ts:
+                    if isinstance(t, dict) and t.get("k") == "f" and strip_cast(t.get("b", {})).get("k") == "this":
+                        wn.setdefault(t["n"], []).append(n)
+            for field in sorted(run_writes):
+                if field not in wn:
+                    continue        # reported by R6
+                always = ig.exit.id not in ig.reach([ig.entry], removed=wn[field])
+                ctx.ob("C05.R6c", "%s::%s" % (rec, field), always or (rec, field) in R6C_CONDITIONAL, wn[field][0].where,
+                       "%s::reset() restores %s only on some paths: on the others the next run of the same graph instance starts from "
+                       "the value the previous run left" % (rec, field), site="%s::%s@reset-unconditional" % (rec, field))
     for fn in fns_of(fb, "Graph", "reset"):
         calls = [pstr(ev.get("this")) + "." + ev.get("name", "") for _, ev in fn.all_events() if ev["e"] == "call" and ev.get("name") == "reset"]
         ctx.ob("C05.R6b", L.short(fn), len(calls) >= 2, fn.loc, "Graph::reset must reset every data and every vertex")
